@@ -61,6 +61,14 @@ def gen_cases(seed, tier):
             ops.append(dict(op=o, a=float(rng.random()), b=float(rng.random())))
         # make sure every op kind is reached regardless of seed
         ops.insert(0, dict(op=common.stratum(i, 2, OPS), a=float(rng.random()), b=float(rng.random())))
+        if start in ('loaded_fsel', 'loaded_tsel', 'loaded_h5'):
+            # what a selected / HDF5-loaded frame is typically used for first: its in-session Waterfall written by blimpy, or a
+            # copy that is saved (while the parent's Waterfall still holds the selection / the open file handle)
+            first = common.stratum(i, 5, 4)
+            if first in (0, 1):
+                ops.insert(0, dict(op='get_waterfall', a=0.2, b=0.2 + 0.6 * first))
+            elif first == 2 or start == 'loaded_fsel':
+                ops[0:0] = [dict(op='copy', a=0.5, b=0.5), dict(op=common.stratum(i, 6, ['save_fil', 'save_h5']), a=0.5, b=0.5)]
         cases.append(dict(start=start, asc=bool(common.stratum(i, 3, 2)), fchans=fchans, tchans=tchans, df=df, dt=dt, fch1=fch1,
                           ops=ops, name=str(common.pick(rng, ['Synthetic', 'VOYAGER-1', 'TIC 141146667 b', 'x', 'A_long_source_name_0123456789', '', ''])),
                           mjd=float(58000 + rng.uniform(0, 3000)), helper=bool(common.stratum(i, 4, 10) == 0), sub=int(rng.integers(2 ** 31))))
@@ -218,7 +226,10 @@ def _run(stg, c, d, R):
         with common.quiet():
             fr = stg.Frame(waterfall=p0)
     else:
-        ext = 'h5' if (c['start'] == 'loaded_h5' and T >= 3 and F >= 3) else 'fil'
+        # the selected routes read .fil and .h5 products alike (an HDF5-loaded frame keeps an open file handle in its Waterfall)
+        ext = 'h5' if ((c['start'] == 'loaded_h5' or (c['start'] in ('loaded_fsel', 'loaded_tsel') and c['sub'] % 2 == 0))
+                       and T >= 3 and F >= 3) else 'fil'
+        R.bucket('start-file:' + c['start'] + ':' + ext)
         p0 = newpath(ext)
         with common.quiet():
             (base.save_h5 if ext == 'h5' else base.save_fil)(p0)
@@ -260,6 +271,14 @@ def _run(stg, c, d, R):
                 wf = fr.get_waterfall()
                 saw_get_wf = True
                 check_waterfall_object(wf, snap, R)
+                if o['a'] < 0.5:
+                    # the in-session Waterfall is the frame as a blimpy object: written with blimpy's own writers it is the file
+                    # the frame would have saved
+                    fmt_ = 'h5' if (o['b'] < 0.5 and h5_ok(fr)) else 'fil'
+                    R.bucket('in-session-waterfall-written-by-blimpy:' + fmt_)
+                    p = newpath(fmt_)
+                    (wf.write_to_hdf5 if fmt_ == 'h5' else wf.write_to_fil)(p)
+                    verify_file(stg, p, fmt_, snap, R, 'written-from-the-in-session-waterfall')
             elif op == 'copy':
                 ancestors.append(fr)
                 fr = fr.copy()
